@@ -15,7 +15,7 @@ import hv
 
 FUNCS = {
     "C03": ["io_utf16Length"],
-    "C12": ["socket_makeHeader", "socket_parseHeader", "udp_makeHeader", "udp_parseHeader"],
+    "C12": ["socket_makeHeader", "socket_parseHeader", "udp_makeHeader", "udp_parseHeader", "ws_makeHeader", "ws_parseHeader"],
     "C13": ["socket_makeHeader", "socket_parseHeader", "udp_makeHeader", "udp_parseHeader"],
     "C18": ["lb_gcd"],
 }
@@ -42,6 +42,9 @@ def gen_cases(ctx, funcs):
         pairs = [(l, i) for l in EDGES16 for i in EDGES16[::2] + [65536, -1]] + [(rng.randrange(65536), rng.randrange(65536)) for _ in range(40)]
         for l, i in pairs:
             add(f="udp_makeHeader", l=l, i=i)
+    if "ws_makeHeader" in funcs:
+        for i in INDEX32 + [rng.randrange(-2**31, 2**32) for _ in range(40)]:
+            add(f="ws_makeHeader", l=0, i=i)
     if "io_utf16Length" in funcs:
         strs = [b""]
         for a in UTF8_ALPHABET:
@@ -72,6 +75,10 @@ def coq_term(c):
     f = c["f"]
     if f in ("socket_makeHeader", "udp_makeHeader"):
         return "hdr (%s (%d) (%d))" % (f, c["l"], c["i"])
+    if f == "ws_makeHeader":
+        return "hdr (ws_makeHeader (%d))" % c["i"]
+    if f == "ws_parseHeader":
+        return "duo (ws_parseHeader %s)" % blist(c["h"])
     if f in ("socket_parseHeader", "udp_parseHeader"):
         return "tri (%s %s)" % (f, blist(c["h"]))
     if f == "io_utf16Length":
@@ -87,6 +94,8 @@ Import ListNotations. Local Open Scope Z_scope.
 Definition hdr (r : gres (list byte)) : list Z := match r with GRet h => map Z_of_byte h | GPanic => [-999] | GFuel => [-998] end.
 Definition tri (r : gres (Z * Z * bool)) : list Z :=
   match r with GRet (l, i, ok) => [l; i; if ok then 1 else 0] | GPanic => [-999] | GFuel => [-998] end.
+Definition duo (r : gres (Z * bool)) : list Z :=
+  match r with GRet (i, ok) => [i; if ok then 1 else 0] | GPanic => [-999] | GFuel => [-998] end.
 Definition one (r : gres Z) : list Z := match r with GRet z => [z] | GPanic => [-999] | GFuel => [-998] end.
 """
 
@@ -147,6 +156,8 @@ def run(ctx):
     # second stage: parse what make produced (and single-bit corruptions of it)
     stage2 = []
     for c, g in zip(cases, go):
+        if c["f"] == "ws_makeHeader" and g != [-999]:
+            stage2.append({"f": "ws_parseHeader", "h": bytes(g).hex(), "made_from": (0, c["i"])})
         if c["f"] in ("socket_makeHeader", "udp_makeHeader") and g != [-999]:
             pf = c["f"].replace("make", "parse")
             h = bytes(g)
@@ -158,6 +169,9 @@ def run(ctx):
     if "udp_parseHeader" in funcs:
         for n in (0, 3, 7, 9):
             stage2.append({"f": "udp_parseHeader", "h": "00" * n})
+    if "ws_parseHeader" in funcs:
+        for n in (0, 1, 3, 5):
+            stage2.append({"f": "ws_parseHeader", "h": "80" * n})
     for k, c in enumerate(stage2):
         c["id"] = k
     go2 = run_go(stage2) if stage2 else []
@@ -189,6 +203,13 @@ def run(ctx):
             if g != [math.gcd(c["x"], c["y"])]:
                 ctx.report("gcd-wrong", "gcd(%d, %d) = %s, the greatest common divisor is %d" % (c["x"], c["y"], g, math.gcd(c["x"], c["y"])),
                            {"case": c, "go": g, "failing_input": True})
+                break
+        elif f == "ws_parseHeader" and "made_from" in c:
+            iw = c["made_from"][1] % 2**32
+            want = [iw % 2**31, 1 if iw < 2**31 else 0]
+            if g != want:
+                ctx.report("header-roundtrip-wrong:" + f, "websocket parseHeader(makeHeader(%d)) = %s, sent (index, no-error-flag) = %s"
+                           % (c["made_from"][1], g, want), {"case": c, "go": g, "want": want, "failing_input": True})
                 break
         elif f in ("socket_parseHeader", "udp_parseHeader") and "made_from" in c:
             l, i = c["made_from"]
